@@ -230,6 +230,17 @@ impl Ctx {
     }
 
     pub fn violation(&mut self, kind: &str, what: &str, ex: &Exchange, rule_yaml: &str, found: bool) {
+        if found && kind != "correspondence" && self.violations.iter().filter(|v| v.failing_input_found).count() < 3 {
+            // written at once: a later abort inside the engine (allocation failure, stack overflow)
+            // would otherwise take the failing inputs found so far with it
+            let _ = std::fs::create_dir_all("/verif/replays");
+            let path = format!("/verif/replays/{}_{}_early{}.json", self.prop, self.seed, self.violations.len());
+            let body = serde_json::json!({
+                "property": self.prop, "kind": kind, "what": what, "request": ex.line,
+                "implementation_reply": ex.imp, "model_reply": ex.model, "rule_or_input": rule_yaml,
+            });
+            let _ = std::fs::write(&path, serde_json::to_string_pretty(&body).unwrap_or_default());
+        }
         if self.violations.len() < 50 {
             self.violations.push(Violation {
                 kind: kind.to_string(),
